@@ -10,5 +10,5 @@ Fixpoint join_of (t : list (str * str * str)) (a b : str) : str :=
   end.
 
 Definition obs_vhost (jt : list (str * str * str)) (domains : list (str * str))
-    (tg : option (list str)) (ip h x p : str) : T :=
-  Tb (on_request (join_of jt) domains tg {| remote_ip := ip; host := h; xfh := x; path := p |}).
+    (tg : option (list (option str))) (remote : option str) (h x p : str) : T :=
+  Tb (on_request (join_of jt) domains tg {| remote_ip := remote; host := h; xfh := x; path := p |}).
